@@ -192,6 +192,30 @@ def run(ctx: Ctx, tier: str) -> Result:
                 res.ok("C10.SCOPE", {"consumer": f.qname, "expression": txt[0]})
             else:
                 res.fail(Finding("C10.SCOPE", f.qname, c, f.loc(c), "evaluates `%s`, not a configured expression" % txt))
+    # the condition of every action is the tracepoint's condition argument, read without disturbing the arguments
+    # (all builders of one tracepoint receive the same mapping)
+    from .common import action_config_writers, param_mutations, LA, literal_key
+    la_init = p.cls(LA).lookup("__init__")
+    nb = 0
+    for qn, lst in sorted(action_config_writers(ctx).items()):
+        for bf, call, _keys in lst:
+            nb += 1
+            cexp = t.bind_args(la_init, call).get("condition")
+            alts = ctx.expand.expand(cexp, bf) if cexp is not None else []
+            argp = [a for a in bf.params if any(x.startswith("@%s[" % a) or x.startswith("@%s.get(" % a) for x in alts)]
+            okc = bool(alts) and all(x == "None" for x in alts) or bool(argp) and all(x == "None" or x.startswith("@%s['condition']" % argp[0]) or x.startswith("@%s.get('condition'" % argp[0]) for x in alts)
+            if okc:
+                res.ok("C10.SCOPE", {"builder": bf.name, "condition": alts})
+            else:
+                res.fail(Finding("C10.SCOPE", bf.qname, cexp if cexp is not None else call, bf.loc(call),
+                                 "the action's condition is not the tracepoint's 'condition' argument (or None): %s" % alts))
+            for a in bf.params:
+                if not any(x[0] == "map" for x in t.type_of(ast.Name(id=a, ctx=ast.Load()), bf)) and a != "args":
+                    continue
+                for mf, mn in param_mutations(ctx, bf, a):
+                    res.fail(Finding("C10.SCOPE", mf.qname, mn, mf.loc(mn), "`%s` modifies the tracepoint arguments, which every action builder of the same tracepoint "
+                                     "receives: the actions built afterwards see no condition and fire unconditionally" % norm(mn)[:60]))
+    res.floor("action builders", nb, 4)
     gf = [f for f in p.functions.values() if f.name == "get_field" and "log_action" in f.module.name]
     need(len(gf) == 1, "log field evaluator get_field not found")
     gcalls = [c for c in t.calls_in(gf[0]) if watchf in t.resolve_call(c, gf[0]).repo]
